@@ -75,6 +75,7 @@ pub fn render(v: &Value) -> Value {
     "f7" => json!("bar($C, $D)"),
     "f8" => json!("bar($XY)"),
     "f9" => json!("bar($N)"),
+    "f10" => json!({"template": "bar($X)", "expandEnd": {"regex": "^;$"}}),
     _ => json!("bar($C)"),
   };
   let rews = match s("r") {
@@ -108,7 +109,7 @@ fn expected_fix(v: &Value) -> Value {
   match v["f"].as_str().unwrap() {
     "f0" => json!(null),
     "f1" | "f5" => json!("bar(abc)"),
-    "f2" | "f4" => json!(format!("bar({x})")),
+    "f2" | "f4" | "f10" => json!(format!("bar({x})")),
     "f6" => json!("bar(abc)"),
     "f7" => json!("bar(abc, abc)"),
     // N is the matched call itself (the first named child of its statement that `$N` matches)
